@@ -223,7 +223,7 @@ def r3_siblings(cx):
         if len(a) != 1 or len(bb) != 1:
             raise AnchorLost("sibling pair %s: ByteRegion %d / ByteSlice %d" % (m, len(a), len(bb)))
         # conversions between the integer wrappers and `min` written as a call or as an `if` do not distinguish the siblings
-        pure = re.compile(r"^std::convert::(From::from|Into::into)$|^std::cmp::(min|max)$|^std::cmp::Ord::(min|max)$|^bases::types::\w+::\w+::(new|into_u64|into_usize|zero)$")
+        pure = re.compile(r"^std::clone::Clone::clone$|^std::convert::(From::from|Into::into)$|^std::cmp::(min|max)$|^std::cmp::Ord::(min|max)$|^bases::types::\w+::\w+::(new|into_u64|into_usize|zero)$")
         sa, sb = [x for x in _callee_seq(F, a[0]) if not pure.search(x)], [x for x in _callee_seq(F, bb[0]) if not pure.search(x)]
         # delegation: the region view turns itself into the slice view (`self.as_slice()`) and then does what the
         # slice view does, or calls the slice view's method of the same name -- the two agree by construction
